@@ -9,12 +9,6 @@ Local Open Scope N_scope.
 Definition go_S_of (m : omap val) (d : sdiff) (p : key) : list key :=
   filter (fun k => negb (om_mem k (ups d))) (matching_keys p m).
 
-Lemma filter_none {A} (f : A -> bool) l : (forall x, In x l -> f x = false) -> filter f l = [].
-Proof.
-  induction l as [|x l IH]; intro H; [reflexivity|]. cbn. rewrite (H x (or_introl eq_refl)).
-  apply IH. intros; apply H; now right.
-Qed.
-
 Definition cbase (bk : omap val) (kl : bool) : omap val := if kl then [] else bk.
 
 Record Comp (bk : omap val) (kl : bool) (d : sdiff) (cur : omap val) (tch : kset) : Prop := {
@@ -131,6 +125,13 @@ Proof.
   apply andb_prop in I as [_ I]. rewrite (TT k (or_introl I)). rewrite I. cbn. now rewrite orb_true_r.
 Qed.
 
+Lemma touched_killed bk d cur tch p : Comp bk true d cur tch ->
+  forall k, In k (matching_keys p bk) -> ks_mem k tch = true.
+Proof.
+  intros [W S Wt V TT] k I. apply kmem_in in I. rewrite kmem_matching in I by exact W.
+  apply andb_prop in I as [_ I]. rewrite (TT k (or_introl I)). rewrite I. cbn. now rewrite orb_true_r.
+Qed.
+
 Lemma untouched_le bk d cur tch p : Comp bk false d cur tch ->
   (length (untouched_matching bk tch p) <= length (go_S_of bk d p))%nat.
 Proof.
@@ -143,7 +144,8 @@ Qed.
 
 Lemma Comp_clear_gen bk kl d cur tch p limit zl ks cur' tch' lp al : Comp bk kl d cur tch ->
   (limit = None \/
-   exists n, limit = Some n /\ N.of_nat (length (untouched_matching bk tch p)) <= n) ->
+   exists n, limit = Some n /\
+     forall k, In k (skipn (N.to_nat n) (matching_keys p bk)) -> ks_mem k tch = true) ->
   (forall k, has_prefix p k = true -> kmem k ks = om_mem k (ups d) || om_mem k (cbase bk kl)) ->
   (zl < 0 \/ Z.of_nat (cnt p (om_keys (ups d)) ks) < zl)%Z ->
   spec_clear cur bk tch p limit = (cur', tch', lp, al) ->
@@ -207,26 +209,21 @@ Qed.
 (* ---- a limited clear in a range the transaction has not touched (child not deleted) *)
 Lemma Comp_clear_first bk d cur tch p n ks cur' tch' lp al : Comp bk false d cur tch ->
   (forall k, has_prefix p k = true -> om_mem k (ups d) = false) ->
-  (forall k, In k (matching_keys p bk) -> ks_mem k (dels d) = false) ->
   rev (cp_loop p (om_keys (ups d)) ks (Z.of_N n) []) = firstn (N.to_nat n) (matching_keys p bk) ->
   spec_clear cur bk tch p (Some n) = (cur', tch', lp, al) ->
   Comp bk false (fold_left sd_delete (rev (cp_loop p (om_keys (ups d)) ks (Z.of_N n) [])) d) cur' tch'.
 Proof.
-  intros C A1 A2 GD E. pose proof (Comp_wf_cur _ _ _ _ _ C) as Wc. pose proof C as [W S Wt V TT].
+  intros C A1 GD E. pose proof (Comp_wf_cur _ _ _ _ _ C) as Wc. pose proof C as [W S Wt V TT].
   cbn [cbase] in V.
   destruct (spec_clear_first cur bk tch p Wc W Wt (Comp_I2 _ _ _ _ _ C) n cur' tch' lp al) as (E1 & E2 & E3);
     [|exact E|].
-  { intros k P T.
-    assert (Mb : om_mem k bk = false).
-    { destruct (om_mem k bk) eqn:Mb; [|reflexivity].
-      rewrite (TT k (or_introl Mb)) in T. cbn in T. rewrite orb_false_r in T. unfold tg in T.
-      rewrite (A1 k P) in T. cbn in T.
-      assert (I : In k (matching_keys p bk)) by (apply kmem_in; rewrite kmem_matching by exact W; now rewrite P, Mb).
-      apply A2 in I. congruence. }
-    split; [|exact Mb].
+  { (* a touched key in the range is a pending deletion: not visible *)
+    intros k P T.
     destruct (om_mem k cur) eqn:Mc; [|reflexivity].
+    rewrite (TT k (or_intror Mc)) in T. cbn in T. rewrite orb_false_r in T. unfold tg in T.
+    rewrite (A1 k P) in T. cbn in T.
     pose proof Mc as Mc'. rewrite V, mview_mem in Mc' by assumption.
-    rewrite (A1 k P), Mb in Mc'. cbn in Mc'. now rewrite andb_false_r in Mc'. }
+    rewrite (A1 k P), T in Mc'. cbn in Mc'. discriminate. }
   cbn zeta in *. rewrite GD. set (del := firstn (N.to_nat n) (matching_keys p bk)) in *.
   split; try assumption.
   - now apply sd_wf_delete_list.
@@ -249,7 +246,8 @@ Proof.
   destruct (spec_clear_all cur bk tch p Wc W Wt (Comp_I2 _ _ _ _ _ C) limit cur' tch' lp al) as (E1 & E2 & E3);
     [|exact E|].
   { destruct limit as [n|]; [right | now left]. exists n. split; [reflexivity|].
-    fold (untouched_matching bk tch p). rewrite (untouched_killed bk d cur tch p C). cbn. lia. }
+    intros k I. apply In_skipn', kmem_in in I. rewrite kmem_matching in I by exact W.
+    apply andb_prop in I as [_ I]. rewrite (TT k (or_introl I)). rewrite I. cbn. now rewrite orb_true_r. }
   assert (NM : forall k, has_prefix p k = true -> om_mem k cur = false).
   { intros k P. rewrite V, mview_mem by (try exact S; apply wf_nil). cbn [cbase].
     rewrite (A k P), om_mem_nil. now rewrite andb_false_r. }
